@@ -32,7 +32,7 @@ var Check = &ev.Check{
 	Budget: func(t string) time.Duration {
 		return map[string]time.Duration{"quick": 4 * time.Minute, "thorough": 28 * time.Minute}[t]
 	},
-	CaseDeadline: 90 * time.Second,
+	CaseDeadline: 20 * time.Second,
 	MemLimitKB:   4 << 20,
 	CrashSig: func(kind, desc, stderr string) (string, bool) {
 		return kind + ":decoder", true
@@ -153,7 +153,19 @@ func (r *runner) one(b []byte, t byte) {
 			w.Outcome("ra-error")
 			return
 		}
+		// forcing: the library's own wire.EvaluateValue and an independent traversal must agree
+		// (on a value decoded separately: EvaluateValue closes the lazy containers it walks)
+		var everr error
+		rd2 := binary.NewReader(bytes.NewReader(b))
+		if v2, _, err2 := rd2.ReadValue(wt, 0); err2 != nil {
+			everr = err2
+		} else {
+			everr = wire.EvaluateValue(v2)
+		}
 		mv, ferr := wirex.FromWire(v)
+		if (everr == nil) != (ferr == nil) {
+			r.viol("evaluate-disagrees", b, t, "EvaluateValue", fmt.Sprintf("wire.EvaluateValue returned %v but traversing every container of the value gives %v", everr, ferr))
+		}
 		if ferr != nil {
 			w.Outcome("ra-lazy-error")
 			return
@@ -349,6 +361,11 @@ func run(w *ev.W) {
 	for _, v := range small {
 		base(v, false)
 	}
+	// nesting shapes: a struct holding one empty or one-element container of every
+	// element type, and lists / sets / maps holding such a struct or an inner container
+	for _, v := range nestedShapes() {
+		base(v, false)
+	}
 	if !w.Quick() {
 		tbin.Enumerate(1, false, func(level int, v tbin.Value) { base(v, false) })
 		// depth-2 representatives: containers over small scalars + depth-1 reps of the small set
@@ -372,6 +389,38 @@ func run(w *ev.W) {
 	}
 }
 
+func nestedShapes() []tbin.Value {
+	var inner []tbin.Value
+	sm := tbin.SmallScalars()
+	for _, ct := range []tbin.Type{tbin.List, tbin.Set} {
+		for _, et := range tbin.AllTypes {
+			inner = append(inner, tbin.Value{T: ct, VT: et})
+			if len(sm[et]) > 0 {
+				inner = append(inner, tbin.Value{T: ct, VT: et, Items: []tbin.Value{sm[et][0]}})
+			}
+		}
+	}
+	for _, kt := range tbin.AllTypes {
+		for _, vt := range tbin.AllTypes {
+			inner = append(inner, tbin.Value{T: tbin.Map, KT: kt, VT: vt})
+			if len(sm[kt]) > 0 && len(sm[vt]) > 0 {
+				inner = append(inner, tbin.Value{T: tbin.Map, KT: kt, VT: vt, Items: []tbin.Value{sm[kt][0], sm[vt][0]}})
+			}
+		}
+	}
+	var out []tbin.Value
+	for _, in := range inner {
+		st := tbin.Value{T: tbin.Struct, Fields: []tbin.Field{{ID: 1, V: in}}}
+		out = append(out, st,
+			tbin.Value{T: tbin.List, VT: in.T, Items: []tbin.Value{in}},
+			tbin.Value{T: tbin.Set, VT: in.T, Items: []tbin.Value{in}},
+			tbin.Value{T: tbin.Map, KT: tbin.I8, VT: in.T, Items: []tbin.Value{{T: tbin.I8, I: 7}, in}},
+			tbin.Value{T: tbin.Map, KT: in.T, VT: tbin.I8, Items: []tbin.Value{in, {T: tbin.I8, I: 7}}},
+			tbin.Value{T: tbin.List, VT: tbin.Struct, Items: []tbin.Value{st}})
+	}
+	return out
+}
+
 // smallSet: scalars plus all depth-1 containers over the reduced scalar pool.
 func smallSet() []tbin.Value {
 	var out []tbin.Value
@@ -383,7 +432,10 @@ func smallSet() []tbin.Value {
 	return out
 }
 
-var lenVals = []uint32{0xffffffff, 0, 1, 2, 0x10000, 0x7fffffff, 0x80000000}
+// length/count edits: boundary values and the small negative counts that turn a
+// "skip n*width bytes" into a short backward seek
+var lenVals = []uint32{0xffffffff, 0, 1, 2, 0x10000, 0x7fffffff, 0x80000000,
+	0xfffffffe, 0xfffffffd, 0xfffffffc, 0xfffffffb, 0xfffffffa, 0xfffffff9, 0xfffffff8, 0xfffffff7, 0xfffffff6, 0xfffffff4, 0xfffffff0}
 
 func mutants(e []byte, yield func([]byte)) {
 	n := len(e)
